@@ -9,6 +9,7 @@
 -/
 import Proofs.GoTieDecrypt
 import Proofs.GoTieNative
+import Proofs.GoTieSshRsa
 namespace AgeModel
 namespace Tie.C01
 
@@ -43,6 +44,20 @@ theorem x25519_Unwrap_tie (P : Prims) {κ : Type} (E : GoTie.NativeEnv P κ) (sk
     ∃ r, Extracted.age_X25519Identity_Unwrap GoTie.errorsIsEq E.D E.X E.H E.R E.A ⟨sk, (P.x25519 sk P.basepoint).getD []⟩ (ss.map GoTie.toGoStanza) = .ok r ∧
       GoTie.resClass r = (Identity.unwrapLog P (.x25519 sk) ss).1 :=
   GoTie.x25519_Unwrap_tie P E sk ss
+
+/-! The SSH identities (agessh/agessh.go), translated on every run: for every stanza list they
+answer what the model's identities answer (ssh-ed25519: a malformed argument is reported before the
+tag is compared, a failed decryption under the right tag is fatal; ssh-rsa likewise). -/
+
+theorem sshEd_Unwrap_tie (P : Prims) {κ π : Type} (E : GoTie.SshEnv P κ π) (key : π) (sk : Bytes) (ss : List Format.Stanza) :
+    ∃ r, Extracted.agessh_Ed25519Identity_Unwrap GoTie.errorsIsEq E.D E.Fp E.X E.H E.Mar E.R E.OpenS ⟨sk, (P.x25519 sk P.basepoint).getD [], key⟩ (ss.map GoTie.toGoStanza) = .ok r ∧
+      GoTie.resClass r = (Identity.unwrapLog P (.sshEd (E.wire key) sk) ss).1 :=
+  GoTie.sshEd_Unwrap_tie P E key sk ss
+
+theorem sshRsa_Unwrap_tie (P : Prims) {π β γ : Type} (E : GoTie.RsaEnv P π β γ) (key : π) (priv : γ) (ss : List Format.Stanza) :
+    ∃ r, Extracted.agessh_RSAIdentity_Unwrap GoTie.errorsIsEq E.Fp E.DecO ⟨priv, key⟩ (ss.map GoTie.toGoStanza) = .ok r ∧
+      GoTie.resClass r = (Identity.unwrapLog P (.sshRsa (E.wire key) (E.privOf priv)) ss).1 :=
+  GoTie.sshRsa_Unwrap_tie P E key priv ss
 
 end Tie.C01
 end AgeModel
